@@ -96,6 +96,28 @@ def _canonicalise(tree: ast.AST) -> None:
 
         fn.body = fix(fn.body)
 
+        # `if c: ...; return/raise/continue/break` with an `else:` branch is the same program as the `if` followed by the
+        # statements of the else branch: hoist them, so that early-exit and if/else spellings are one form for every rule
+        def hoist(stmts: List[ast.stmt]) -> List[ast.stmt]:
+            out: List[ast.stmt] = []
+            for st in stmts:
+                for field in ("body", "orelse", "finalbody"):
+                    v = getattr(st, field, None)
+                    if isinstance(v, list) and v and isinstance(v[0], ast.stmt) and not isinstance(st, (ast.FunctionDef, ast.AsyncFunctionDef, ast.ClassDef)):
+                        setattr(st, field, hoist(v))
+                for h in getattr(st, "handlers", []) or []:
+                    h.body = hoist(h.body)
+                if isinstance(st, ast.If) and st.orelse and st.body and isinstance(st.body[-1], (ast.Return, ast.Raise, ast.Continue, ast.Break)):
+                    tail = st.orelse
+                    st.orelse = []
+                    out.append(st)
+                    out.extend(tail)
+                else:
+                    out.append(st)
+            return out
+
+        fn.body = hoist(fn.body)
+
 
 class Module:
     def __init__(self, name: str, path: str, rel: str, source: str, is_pkg: bool):
